@@ -332,6 +332,12 @@ def build_pool(rnd, tier):
         else:
             kind, content, kw = rnd.choice(makeable)
             ops.append(Op('serialise', content, kw, sym=-1, ser=ser, fresh=True))
+    # one fixed multi-colour argument set on fresh symbols of every size class (Micro / version < 7 / version >= 7), per colourful writer
+    fixed = dict(finder_dark='darkred', data_dark='navy', version_dark='teal', alignment_dark='gold', dark_module='lime', timing_dark='indigo')
+    for kind in ('png', 'svg', 'ppm'):
+        for content, kw in (('123', dict(version='M2')), ('SIZE CLASS', dict(version=2, micro=False)), ('size class seven', dict(version=7)),
+                            ('1', dict(version='M1')), ('x', dict(version=10))):
+            ops.append(Op('serialise', content, kw, sym=-1, ser=dict(method='save', kind=kind, text=False, kw=dict(fixed)), fresh=True))
     # churn: discarded symbols of the same size before the observed one
     for _ in range(10 if quick else 40):
         v = rnd.choice([1, 2, 3, 5])
@@ -435,6 +441,13 @@ def classify_reencode(c, kw2, q, note):
     return None
 
 
+_ISO_OPS, _ISO_SHARED = None, None
+
+
+def _iso_run(i):
+    return digest(_ISO_OPS[i].run(_ISO_SHARED)[0])
+
+
 def run_C15(tier, rnd, st, res):
     quick = tier == 'quick'
     deep0 = deep_state()
@@ -442,6 +455,14 @@ def run_C15(tier, rnd, st, res):
     prev = state0
     ops, shared = build_pool(rnd, tier)
     shared_digests = [matrix_digest(q.matrix) for q in shared]
+    # ---- stateless reference 0: every operation alone in a fresh process (forked before anything else has run here), so that
+    #      state a first use leaves behind (caches keyed too coarsely, lazily filled tables) cannot hide in "both passes agree"
+    global _ISO_OPS, _ISO_SHARED
+    _ISO_OPS, _ISO_SHARED = ops, shared
+    import multiprocessing
+    with multiprocessing.get_context('fork').Pool(8, maxtasksperchild=1) as pool:
+        iso = pool.map(_iso_run, range(len(ops)), chunksize=1)
+    res.evaluations += len(ops)
     # ---- stateless reference: two fresh single-threaded passes before any history (forward / reverse)
     fwd = [op.run(shared)[0] for op in ops]
     bwd = [op.run(shared)[0] for op in reversed(ops)][::-1]
@@ -450,6 +471,8 @@ def run_C15(tier, rnd, st, res):
         op.expected_raw = a
     lines = [f'hist id=reference exp={",".join(digest(a) for a in fwd)} obs={",".join(digest(b) for b in bwd)}']
     meta = [('reference', list(range(len(ops))), 1)]
+    lines.append(f'hist id=isolated exp={",".join(iso)} obs={",".join(digest(a) for a in fwd)}')
+    meta.append(('isolated-process reference vs. first pass in this process', list(range(len(ops))), 1))
     res.evaluations += 2 * len(ops)
     # ---- the Lean model as stateless reference of the encoding operations
     if st.model_ok:
